@@ -18,7 +18,7 @@ _USE_PATTERN_MATCHING = (sys.version_info >= (3, 10))
 
 
 class PyRTLProcess(BaseProcess):
-    __slots__ = ("is_comb", "runnable", "critical", "run")
+    __slots__ = ("is_comb", "runnable", "critical", "run", "clk_edge")
 
     def __init__(self, *, is_comb):
         self.is_comb  = is_comb
@@ -28,6 +28,9 @@ class PyRTLProcess(BaseProcess):
     def reset(self):
         self.runnable = self.is_comb
         self.critical = False
+        # Only used for domains with an asynchronous reset: set when the process has been woken up
+        # by the active edge of its clock (as opposed to the rising edge of its reset alone).
+        self.clk_edge = False
 
 
 class _PythonEmitter:
@@ -467,6 +470,15 @@ def edge_waker(process, polarity):
     return waker
 
 
+def clock_edge_waker(process, polarity):
+    def waker(curr, next):
+        if next == polarity:
+            process.clk_edge = True
+            process.runnable = True
+        return True
+    return waker
+
+
 def memory_waker(process):
     def waker():
         process.runnable = True
@@ -477,6 +489,15 @@ def memory_waker(process):
 class _FragmentCompiler:
     def __init__(self, state):
         self.state = state
+
+    @staticmethod
+    def _is_read_port_data(fragment, domain_name, signal):
+        # Memory read ports have no reset: their data registers keep their value.
+        if isinstance(fragment, MemoryInstance):
+            for port in fragment._read_ports:
+                if port._domain == domain_name and signal in port._data._lhs_signals():
+                    return True
+        return False
 
     def __call__(self, fragment):
         processes = set()
@@ -535,9 +556,24 @@ class _FragmentCompiler:
             else:
                 domain = fragment.domains[domain_name]
                 clk_polarity = 1 if domain.clk_edge == "pos" else 0
-                self.state.add_signal_waker(domain.clk, edge_waker(domain_process, clk_polarity))
                 if domain.async_reset and domain.rst is not None:
+                    self.state.add_signal_waker(domain.clk, clock_edge_waker(domain_process, clk_polarity))
                     self.state.add_signal_waker(domain.rst, edge_waker(domain_process, 1))
+                    # The rising edge of an asynchronous reset alone (without an active clock edge)
+                    # only loads the reset values; the rest of the domain's logic, memory ports
+                    # included, is sensitive to the clock and must not run.
+                    emitter.append("if not process.clk_edge:")
+                    with emitter.indent():
+                        for (signal, mask) in lhs_masks.masks():
+                            if not signal.reset_less and not self._is_read_port_data(fragment, domain_name, signal):
+                                if signal.shape().signed and (mask & 1 << (len(signal) - 1)):
+                                    mask |= -1 << len(signal)
+                                signal_index = self.state.get_signal(signal)
+                                emitter.append(f"slots[{signal_index}].update({signal.init}, {mask})")
+                        emitter.append("return")
+                    emitter.append("process.clk_edge = False")
+                else:
+                    self.state.add_signal_waker(domain.clk, edge_waker(domain_process, clk_polarity))
 
                 for (signal, _) in lhs_masks.masks():
                     signal_index = self.state.get_signal(signal)
@@ -623,6 +659,7 @@ class _FragmentCompiler:
 
             exec_locals = {
                 "slots": self.state.slots,
+                "process": domain_process,
                 **_ValueCompiler.helpers,
                 **_StatementCompiler.helpers,
             }
